@@ -11,10 +11,13 @@ package main
 
 import (
 	"bytes"
+	"encoding/base64"
 	stdjson "encoding/json"
 	"fmt"
+	"io"
 	"reflect"
 	"sort"
+	"strconv"
 	"strings"
 	"sync"
 
@@ -477,8 +480,92 @@ func c10EncoderHistories(c *Ctx) {
 	}
 }
 
+// c10DecoderStreams: a Decoder without zero-copy flags over a stream several times its buffer; what each Decode
+// handed out - a RawMessage, a string, a Number, bytes, a map with its keys, a value in an interface - is kept, and
+// when the stream is at its end (the buffer was compacted, refilled and grown many times on the way) every kept
+// value still is what it was when it was handed out
+func c10DecoderStreams(c *Ctx) {
+	type kept struct {
+		v    reflect.Value
+		snap string
+	}
+	targets := []func() any{
+		func() any { return new(json.RawMessage) }, func() any { return new(string) }, func() any { return new(any) },
+		func() any { return new([]byte) }, func() any { return new(map[string]string) }, func() any { return new([]json.RawMessage) },
+		func() any { return new(struct{ R json.RawMessage }) }, func() any { return new(json.Number) },
+	}
+	docFor := func(ti, i int) string {
+		n := []int{3, 40, 700, 5000, 33000}[i%5]
+		if i%97 == 96 {
+			n = 70000
+		}
+		body := strings.Repeat(string(rune('a'+i%26)), n)
+		switch ti {
+		case 0, 2:
+			return []string{`"` + body + `"`, `{"k":"` + body + `","n":[` + strconv.Itoa(i) + `]}`, `[` + strconv.Itoa(i) + `,"` + body + `"]`}[i%3]
+		case 1:
+			return `"` + body + `\n"`
+		case 3:
+			return `"` + base64.StdEncoding.EncodeToString([]byte(body)) + `"`
+		case 4:
+			return `{"` + body + `":"` + body + `","k` + strconv.Itoa(i) + `":"v"}`
+		case 5:
+			return `[1,"` + body + `",{"a":"` + body + `"}]`
+		case 6:
+			return `{"R":["` + body + `"]}`
+		}
+		return strconv.Itoa(i) + strings.Repeat("0", n%300) + ".5"
+	}
+	for ti, mk := range targets {
+		for _, sep := range []string{"\n", "", " \t "} {
+			var stream bytes.Buffer
+			count := 120
+			for i := 0; i < count; i++ {
+				stream.WriteString(docFor(ti, i))
+				if sep == "" && (ti == 7 || ti == 1 || ti == 3) {
+					stream.WriteString(" ") // scalars need a separator
+				}
+				stream.WriteString(sep)
+			}
+			for _, chunk := range []int{0, 1000, 4096} {
+				var src io.Reader = bytes.NewReader(stream.Bytes())
+				if chunk > 0 {
+					src = onlyRead{src, chunk}
+				}
+				d := json.NewDecoder(src)
+				var all []kept
+				k := c10WideCase{API: fmt.Sprintf("Decoder stream target=%d sep=%q chunk=%d", ti, sep, chunk), Val: -8}
+				c.Case()
+				bad := ""
+				for i := 0; i < count; i++ {
+					x := mk()
+					var err error
+					c.Eval(1)
+					if p := protect(func() { err = d.Decode(x) }); p != "" || err != nil {
+						bad = fmt.Sprintf("value %d: err=%v %s", i, err, p)
+						break
+					}
+					all = append(all, kept{reflect.ValueOf(x).Elem(), dumpOf(reflect.ValueOf(x).Elem())})
+				}
+				c10Churn(ti)
+				for i, kv := range all {
+					if bad != "" {
+						break
+					}
+					if now := dumpOf(kv.v); now != kv.snap {
+						bad = fmt.Sprintf("value %d of %d handed out by Decode has changed by the time the stream is at its end: was %s, is %s", i, count, clipS(kv.snap), clipS(now))
+					}
+				}
+				if bad != "" {
+					c.Diverge("C10", "Decoder.Decode(a stream longer than the buffer, every result kept)", "what a Decode handed out keeps its contents", bad, "", k)
+				}
+			}
+		}
+	}
+}
+
 func c10Wide(c *Ctx, shape *jShape) {
-	c10HugeOnce.Do(func() { c10Huge(c); c10EncoderHistories(c) })
+	c10HugeOnce.Do(func() { c10Huge(c); c10EncoderHistories(c); c10DecoderStreams(c) })
 	t := jTypeOf(shape)
 	r := newRng(c.Seed, "c10wide"+shape.String())
 	docs := c10Docs(shape, c.Seed, r, c.Tier)
@@ -521,6 +608,9 @@ func c10WideReplay(c *Ctx, k c10WideCase) {
 	if k.Shape == nil {
 		if k.Val == -7 {
 			c10EncoderHistories(c)
+		}
+		if k.Val == -8 {
+			c10DecoderStreams(c)
 		}
 		if k.Val > 100000 {
 			c10Huge(c)
